@@ -7,7 +7,7 @@
 (* Generation (MC*.tla) enumerates steps; validation (Trace.tla) replays    *)
 (* the steps the harness executed on the real code.                         *)
 (***************************************************************************)
-EXTENDS Wire, Integers
+EXTENDS Format, Integers
 
 CONSTANTS NSlots,      \* number of slots
           Deviations   \* named deviations of the code from the ideal design (DESIGN 4.2)
